@@ -1,16 +1,14 @@
 package sim
 
 import (
+	"os"
 	"bytes"
-	"errors"
 	"fmt"
 	"regexp"
 	"strconv"
 	"strings"
 
-	"github.com/asticode/go-astits"
 	"github.com/bluenviron/mediacommon/v2/pkg/formats/fmp4"
-	"github.com/bluenviron/mediacommon/v2/pkg/formats/mpegts"
 )
 
 // Observation of a muxer through Muxer.Handle only: playlists after every writer
@@ -318,6 +316,9 @@ func (o *muxObs) checkGone() {
 func (o *muxObs) decode(obj *mediaObj) {
 	if strings.HasSuffix(obj.uri, ".ts") {
 		obj.ts, obj.tsTracks, obj.patFirst, obj.decErr = decodeTS(obj.body)
+		if d := os.Getenv("VERIF_DUMP"); d != "" && obj.decErr != nil {
+			os.WriteFile(d+"/"+obj.uri, obj.body, 0o644)
+		}
 		return
 	}
 	var parts fmp4.Parts
@@ -336,73 +337,3 @@ func decodeInit(b []byte) (*fmp4.Init, error) {
 	return &in, nil
 }
 
-// decodeTS decodes one MPEG-TS segment on its own (it must be independently decodable).
-func decodeTS(b []byte) (samples []tsSample, tracks []string, patFirst bool, err error) {
-	// raw packet walk: PAT at offset 0, PMT at offset 188
-	if len(b) >= 376 && b[0] == 0x47 && b[188] == 0x47 {
-		pid0 := int(b[1]&0x1f)<<8 | int(b[2])
-		patFirst = pid0 == 0
-		if patFirst {
-			// PMT PID from the PAT payload: pointer field, table id 0, ..., program entries
-			p := b[4:188]
-			if b[3]&0x20 != 0 { // adaptation field
-				p = p[1+int(p[0]):]
-			}
-			if len(p) > 13 {
-				p = p[1+int(p[0]):] // pointer field
-				if len(p) >= 12 && p[0] == 0x00 {
-					pmtPID := int(p[10]&0x1f)<<8 | int(p[11])
-					pid1 := int(b[189]&0x1f)<<8 | int(b[190])
-					patFirst = pid1 == pmtPID
-				} else {
-					patFirst = false
-				}
-			} else {
-				patFirst = false
-			}
-		}
-	}
-	r := &mpegts.Reader{R: bytes.NewReader(b)}
-	if err = r.Initialize(); err != nil {
-		return
-	}
-	var decErr error
-	r.OnDecodeError(func(e error) {
-		if decErr == nil {
-			decErr = e
-		}
-	})
-	for i, tr := range r.Tracks() {
-		i := i
-		switch tr.Codec.(type) {
-		case *mpegts.CodecH264:
-			tracks = append(tracks, "h264")
-			r.OnDataH264(tr, func(pts, dts int64, au [][]byte) error {
-				samples = append(samples, tsSample{track: i, codec: "h264", pts: pts, dts: dts, data: au})
-				return nil
-			})
-		case *mpegts.CodecMPEG4Audio:
-			tracks = append(tracks, "aac")
-			r.OnDataMPEG4Audio(tr, func(pts int64, aus [][]byte) error {
-				samples = append(samples, tsSample{track: i, codec: "aac", pts: pts, dts: pts, data: aus})
-				return nil
-			})
-		default:
-			tracks = append(tracks, fmt.Sprintf("%T", tr.Codec))
-		}
-	}
-	for {
-		e := r.Read()
-		if e != nil {
-			if errors.Is(e, astits.ErrNoMorePackets) {
-				break
-			}
-			err = e
-			return
-		}
-	}
-	if decErr != nil {
-		err = decErr
-	}
-	return
-}
